@@ -58,11 +58,16 @@ pub fn dead_code_elimination(function: &il::Function) -> Result<il::Function, Er
                         function,
                         il::RefFunctionLocation::Instruction(block, instruction),
                     );
-                    if let Some(definitions) = rd.get(&rpl.into()) {
-                        definitions.locations().iter().for_each(|location| {
+                    // The definitions reaching *into* this instruction are the
+                    // ones it observes. The state held for the instruction
+                    // itself is its out state, where an intrinsic has already
+                    // killed the definitions of the scalars it writes.
+                    reaching_definitions::reaching_in(function, &rd, &rpl.into())?
+                        .locations()
+                        .iter()
+                        .for_each(|location| {
                             live.insert(location.function_location().clone());
                         });
-                    }
                 }
                 _ => {}
             }
